@@ -29,7 +29,8 @@ ENCODES = ['pexpect._async_w_await.expect_async', 'pexpect._async_w_await.Patter
 STUBS = ['asyncio inside pexpect._async_w_await: Future, wait_for (an awaitable that hands control to the harness), '
          'TimeoutError, Protocol; _loop_getter: a loop whose connect_read_pipe attaches the protocol to a recording transport',
          'blocking twin: scripted read_nonblocking delivering the same chunks', 'buffers: real io objects created outside tracing']
-ASSUMPTIONS = ['chunks the loop delivers while no call is outstanding count as pending text of the next call (the blocking twin gets them as pending text too)',
+ASSUMPTIONS = ['the transport hands data/EOF to the protocol between two calls only if it was left reading (a paused transport reads nothing); within a call the harness also delivers chunks after the future resolved (superset of the wait_for cancellation window)',
+               'chunks the loop delivers while no call is outstanding count as pending text of the next call (the blocking twin gets them as pending text too)',
                'stream text concrete, delivery schedule symbolic (cut positions and delivery points enumerated through the solver)',
                'one text pattern plus EOF and TIMEOUT in the list (with several text patterns the result legitimately '
                'depends on chunking, as the documentation says)', '<= 3 chunks, 2 calls']
@@ -147,7 +148,8 @@ def _sync_call(sp, W, tmo, pats):
 
 def _async_call(sp, loop, W, tmo, deliveries, end, pats):
     """one awaited call; deliveries: chunks handed to data_received while the call is outstanding;
-    end: None | 'eof' | 'eio' | 'timeout' - what happens if the future is still pending after them"""
+    end: None | 'eof' | 'eio' | 'timeout' | 'closed' (the pipe was closed earlier: nothing more will ever be
+    delivered) - what happens if the future is still pending after them"""
     coro = sp.expect_exact(pats, timeout=tmo, searchwindowsize=W if W else -1, async_=True)
     try:
         w = coro.send(None)              # runs existing_data, (connect|resume), then awaits wait_for
@@ -213,9 +215,28 @@ def P1_parity(k1, k2, d1, end, W, early, tmode, listed=True):
         idle = (r1 == 0 and len(first) > 0)
         if w1 is None:
             second = first + second        # call 1 answered from pending text without awaiting: nothing was delivered yet
-        r2, e2, w2 = _async_call(a, loop, W, tmo, second, endk, pats)
+        # the event loop keeps running while no call is outstanding: a transport that is still reading hands
+        # whatever the child does next - the remaining output and its exit - to the protocol right away; a paused
+        # transport reads nothing until the next call resumes it
+        if w1 is not None and not loop.tr.paused and a.async_pw_transport:
+            pw = a.async_pw_transport[0]
+            for d in second:
+                pw.data_received(d)
+            second = []
+            if endk == 'eof':
+                pw.eof_received()
+                endk_a = 'closed'
+            elif endk == 'eio':
+                pw.connection_lost(OSError(errno.EIO, 'eio'))
+                endk_a = 'closed'
+            else:
+                endk_a = endk
+        else:
+            endk_a = endk
+        r2, e2, w2 = _async_call(a, loop, W, tmo, second, endk_a, pats)
         st_a2 = _state(a, r2, e2)
         # ---- blocking twin
+        second = rest[d1:] if w1 is not None else rest
         b = Sp(script=[('data', c) for c in rest] + [('eof',) if endk != 'timeout' else ('timeout',)], timeout=7)
         for c in pre:
             b._before.write(c)
